@@ -38,6 +38,19 @@ def mk_handle_class():
     return CH
 
 
+def mk_falsy_handles(CH):
+    class EmptyHandle(CH):
+        """A handle that is falsy (sized like an empty collection)."""
+        def __len__(self):
+            return 0
+
+    class LazyTruthHandle(CH):
+        """A handle that is truthy only once its resource is cached."""
+        def __bool__(self):
+            return self.cached
+    return EmptyHandle, LazyTruthHandle
+
+
 class Anything:
     """Equal to everything (like unittest.mock.ANY)."""
     def __eq__(self, other):
@@ -146,7 +159,12 @@ def run_history(history):
             if kind == 'set':
                 _, key, what = op
                 path = key.split('/')
-                if what[0] == 'h':
+                if what[0] == 'h' and what[1] in (6, 7):
+                    v = mk_falsy_handles(CH)[what[1] - 6]('res%d' % step)
+                    v.clears = 0
+                    handles.append(v)
+                    mv = v
+                elif what[0] == 'h':
                     v = CH(VALUES[what[1] % len(VALUES)] if what[1] < 4 else (Falsy() if what[1] == 4 else Anything()))
                     v.clears = 0
                     handles.append(v)
@@ -201,7 +219,7 @@ def run_history(history):
                 mcur.clear()
                 if cur.maps or any(cur.handles.maps) or len(cur.handles):
                     return ('C11', 'clear() left entries in the map', 'clear-leftovers')
-                for n in children:
+                for n in (children if not named.get('aliased') else ()):
                     if n.parent is not None or n.key is not None:
                         return ('C11', 'clear() did not detach a former direct child', 'clear-detach')
             elif kind == 'access':
@@ -224,6 +242,18 @@ def run_history(history):
                         return ('C12', '%d loads for one uncached resource (cached before: %r)' % (h.loads - before, was_cached), 'load-count')
                     if not h.cached:
                         return ('C12', 'cached is False right after an access', 'cached-flag')
+            elif kind == 'callall':
+                # every handle the program ever made, attached or not (a replaced handle is
+                # still a handle the program may hold): calling it loads at most once
+                for h in handles:
+                    r1 = h()
+                    if h() is not r1:
+                        return ('C12', 'two calls of one handle return different objects', 'identity')
+            elif kind == 'reassign':
+                # the handle found under a key is assigned to that key again
+                h = root.get(op[1])
+                if isinstance(h, desper.Handle):
+                    root[op[1]] = h
             elif kind == 'hclear':
                 h = root.get(op[1])
                 if isinstance(h, desper.Handle):
@@ -266,10 +296,18 @@ def check_static(root):
                 return ('C17', 'snapshot[%r] is not the loaded resource' % k, 'static-item')
             if k.isidentifier() and getattr(s, k) is not h():
                 return ('C17', 'snapshot.%s is not the loaded resource' % k, 'static-attr')
-        for bad in ('zz_absent',):
+        present = set(n_ for n_ in getattr(type(s), '__slots__', ()) if n_ != '__dict__')
+        try:
+            present |= set(object.__getattribute__(s, '__dict__'))
+        except AttributeError:
+            pass
+        for bad in sorted(present | {'zz_absent', 'a', 'b', 'c', 'd', 'b-1', '__p'}):
+            if bad in m.handles or bad in m.maps or bad == '_handle_names':
+                continue
             try:
-                s[bad]
-                return ('C17', 'name absent from the map is present in the snapshot', 'static-extra')
+                s.get(bad)
+                return ('C17', 'name %r is absent from the map %r but present in the snapshot'
+                        % (bad, '/'.join(path)), 'static-extra')
             except AttributeError:
                 pass
         for name in list(m.handles) + list(m.maps) + ['brand_new']:
@@ -297,18 +335,28 @@ def families(pid, tier):
     n = 3 if tier != 'thorough' else 4
     if pid == 'C12':
         ops = [('set', 'a', ('h', i)) for i in range(6)] + [('set', 'a/b', ('h', 0)), ('access', 'a'),
-                                                             ('access', 'a/b'), ('hclear', 'a'), ('static',)]
+                                                             ('access', 'a/b'), ('hclear', 'a'), ('static',),
+                                                             ('callall',), ('reassign', 'a')]
         n += 1
     if pid == 'C17':
         ops = [('set', k, v) for k in ('a', 'a/b', 'b-1', '__p') for v in (('h', 0), ('h', 1), ('m', 1))]
         ops += [('set', 'a', ('layer',)), ('set', 'a/b', ('layer',)), ('alias', 'a', 'c'), ('alias', 'a', 'a/c'),
-                ('alias', 'a/b', 'd')]
+                ('alias', 'a/b', 'd'), ('set', 'a', ('h', 6)),
+                # snapshots taken in the middle of a history, clears of the root and of a sub-map
+                ('static',), ('clear', ''), ('clear', 'a')]
         # every history ends with the comparison of the snapshot with the map
-        for k in range(1, n + 2):
+        for k in range(1, n + 1):
             for combo in itertools.product(ops, repeat=k):
                 yield list(combo) + [('static',)]
         return
     if pid == 'C11':
+        # handles whose truth value is False (sized like an empty collection, or truthy only
+        # once cached): every access path still finds them
+        fops = [('set', k, ('h', i)) for k in ('a', 'a/b') for i in (6, 7)] + [
+            ('access', 'a'), ('access', 'a/b'), ('clear', 'a'), ('set', 'a', ('layer',))]
+        for k in range(1, 4):
+            for combo in itertools.product(fops, repeat=k):
+                yield list(combo)
         # keys with empty path components (the empty string is a legal component)
         ekeys = ['/x', 'x', '', 'a//b', 'x/', '//x', 'a/']
         eops = [('set', k, v) for k in ekeys for v in (('h', 0), ('h', 1), ('m', 0))]
@@ -346,7 +394,7 @@ def main():
                               'violates': v[0], 'found_by': 'native bounded search', 'signature': sig},
                              default=str))
             return
-        if tried > 40000:
+        if tried > (40000 if req.get('tier', 'quick') != 'thorough' else 400000):
             break
     print(json.dumps({'status': 'not-found', 'tried': tried}))
 
